@@ -23,7 +23,7 @@ import (
 
 // Policy is the plain-data description of a schedule.
 type Policy struct {
-	Mode    string `json:"mode"`              // "random" | "preempt" | "jitter"
+	Mode    string `json:"mode"`              // "random" | "preempt" | "starve" | "jitter"
 	Choices []int  `json:"choices,omitempty"` // choice vector, used cyclically
 	Preempt []int  `json:"preempt,omitempty"` // step numbers at which the running goroutine is preempted (mode preempt)
 	Delays  []int  `json:"delays,omitempty"`  // jitter: delay classes, indexed by call count
@@ -42,6 +42,9 @@ type gor struct {
 	state int
 	site  string
 	since int // step at which it became runnable
+	// parked (mode "starve"): preempted and passed over, also by the fairness rule, until no other
+	// goroutine can run
+	parked bool
 }
 
 // S is one scheduler instance; install it for the duration of one case.
@@ -212,11 +215,24 @@ func (s *S) choice(n int) int {
 }
 
 func (s *S) runnable() []*gor {
-	var out []*gor
+	var out, parked []*gor
 	for _, g := range s.gs {
 		if g.state == stRunnable {
-			out = append(out, g)
+			if g.parked {
+				parked = append(parked, g)
+			} else {
+				out = append(out, g)
+			}
 		}
+	}
+	if len(out) == 0 && len(parked) > 0 {
+		// nothing else can run: the starved goroutines come back (they keep their place in line:
+		// since is reset so that the fairness rule does not fire at once)
+		for _, g := range parked {
+			g.parked = false
+			g.since = s.step
+		}
+		out = parked
 	}
 	sort.Slice(out, func(i, j int) bool { return out[i].seq < out[j].seq })
 	return out
@@ -346,6 +362,21 @@ func (s *S) Yield(site string) {
 		next = oldest
 	} else {
 		switch s.pol.Mode {
+		case "starve":
+			// like preempt, but the preempted goroutine is not scheduled again until every other
+			// goroutine is blocked or done: one goroutine stalls at an arbitrary point for as long
+			// as possible (what a descheduled OS thread looks like to the others)
+			hit := false
+			for _, p := range s.pol.Preempt {
+				if p == s.step {
+					hit = true
+				}
+			}
+			if !hit {
+				return
+			}
+			next = r[s.choice(len(r))]
+			g.parked = true
 		case "preempt":
 			hit := false
 			for _, p := range s.pol.Preempt {
